@@ -637,7 +637,9 @@ class PartialOps:
             if not is_slice:
                 classes.add("IndexError")
             if not (keyt is not None and keyt <= {"int", "slice", "bool"}):
-                classes.add("TypeError")
+                kk2 = self._kinds(fn, node, key)
+                if not (kk2 is not None and kk2 <= {INT, BOOLEAN}):
+                    classes.add("TypeError")
         if ks - {OBJECT, ARRAY, STRING, NODELIST}:
             classes.add("TypeError")
         if not classes:
